@@ -1,30 +1,8 @@
 # C03 — No overdraft; batches are all-or-nothing.
-from . import chainrun
+from . import ledger
 
 
-def run(ctx):
-    ctx.coverage["rule"] = ("chains from the scenario library (eras: every activation era with transfers at bal-1/bal/bal+1, several "
-                            "transactions on one balance, in-batch credits; bank; staking), seeds derived from VERIF_SEED; every block is an "
-                            "evaluation; a chain is non-trivial when it executes and rejects batches; compared: balances and batch status")
-    ctx.proof_stage()
-    n = 1 if ctx.tier == "quick" else 4
-    pairs = [(s, sd) for s in ("eras", "bank", "staking") for sd in chainrun.seeds_for(ctx, n)]
-    res = chainrun.check(ctx, pairs, [1, 6], "C03 balances and batch status", functional=False)
-    for r in res:
-        if "error" in r:
-            continue
-        if not r.get("cr_nonneg", True):
-            ctx.add_violation("the node's database holds a negative balance cell after scenario %s seed %d" % (r["scenario"], r["seed"]),
-                              {"kind": "chain", "scenario": r["scenario"], "seed": r["seed"], "oracle": "Corr.Chain.impl_nonneg"},
-                              name="negative-cell")
-    ctx.coverage["samples"] = ctx.coverage.get("samples", []) + [
-        {"scenario": r["scenario"], "seed": r["seed"], "stats": r.get("stats", {})} for r in res[:3]]
-
-
-def search(ctx, why):
-    n = 2
-    pairs = [(s, sd) for s in ("eras", "bank", "bankmixed", "staking", "dups") for sd in chainrun.seeds_for(ctx, n)]
-    res = chainrun.check(ctx, pairs, [1, 6], "C03 balances and batch status (search after a broken proof)", functional=False)
+def oracle(ctx, res):
     found = False
     for r in res:
         if "error" not in r and not r.get("cr_nonneg", True):
@@ -33,3 +11,13 @@ def search(ctx, why):
                               name="negative-cell")
             found = True
     return found
+
+
+def run(ctx):
+    ctx.coverage["rule"] = ledger.rule("C03")
+    ctx.proof_stage()
+    oracle(ctx, ledger.run(ctx))
+
+
+def search(ctx, why):
+    return oracle(ctx, ledger.run(ctx, extra=("bankmixed", "dups")))
